@@ -94,6 +94,26 @@ func Seed(cfg *Config, name string) []uint32 {
 			do(Ev(EvTick, 1, 0, 0))
 			deliverAll(0)
 		}
+	case "stepped-down-novote":
+		// replica 1 was leader of term T, replicas 2 and 3 both became candidates of term T+1 on their own
+		// timeouts; the old leader learnt T+1 from the reply to a heartbeat (check-quorum makes a
+		// candidate answer a stale heartbeat), so it is a follower of T+1 that has not voted yet, with
+		// both vote requests still in flight: the next vote it grants changes nothing but Vote.
+		deliverOne := func(pred func(m pb.Message) bool) {
+			for j, m := range c.net {
+				if pred(m.m) {
+					do(Ev(EvDeliver, j, 0, 0))
+					return
+				}
+			}
+		}
+		do(Ev(EvTimeout, 1, 0, 0))
+		deliverAll(0)
+		do(Ev(EvTimeout, 2, 0, 0))
+		do(Ev(EvTimeout, 3, 0, 0))
+		do(Ev(EvTick, 1, 0, 0))
+		deliverOne(func(m pb.Message) bool { return m.From == 1 && m.To == 2 && m.Type == pb.MsgHeartbeat })
+		deliverOne(func(m pb.Message) bool { return m.From == 2 && m.To == 1 && m.Type == pb.MsgAppResp })
 	case "divergent", "stale-long":
 		// replica 1: old leader with an uncommitted entry; replica 2: leader of the next term
 		// with a different uncommitted entry at the same index; replica 3 has neither.
